@@ -32,6 +32,29 @@ def args_of(op):
 KNOWN_CLASSES = {}
 
 PROPS = {
+    "C03": {
+        "lean_modules": ["TableauVerif.Props.C03"],
+        "oracles": ["c03.parse"],
+        "streams": [
+            ("corr.xproto.parseFieldValue", 60000, 1500000),
+        ],
+        "assumptions": [
+            "modelled: ParseFieldValue for the int32/uint32/int64/uint64 families and bool (strconv.ParseInt/ParseUint/ParseBool and the decimal subset of ParseFloat transliterated); "
+            "answered 'unmodelled' (compared by the oracle only): hex floats, '_' separators, non-integer literals with more than 15 digits",
+            "strconv.ParseFloat's float64 rounding is not modelled; the modelled class is chosen so that rounding cannot change the result (DESIGN.md C03)",
+        ],
+    },
+    "C07": {
+        "lean_modules": ["TableauVerif.Props.C07"],
+        "oracles": ["c07.position", "c07.desc"],
+        "streams": [
+            ("corr.excel.position", 4000, 200000),
+            ("corr.xerrors.newDesc", 6000, 300000),
+        ],
+        "assumptions": [
+            "modelled: excel.LetterAxis/Postion, xerrors.ErrorKV/WrapKV/Error(), xerrors.NewDesc",
+        ],
+    },
     "C14": {
         "lean_modules": ["TableauVerif.Props.C14", "TableauVerif.Props.C14Pins"],
         "oracles": ["c14.merge", "c14.fieldsep", "c14.fieldsubsep"],
